@@ -14,8 +14,9 @@ Kind   == {"bytes", "seekable", "nonseekable"}
 Sev    == 0..5
 \* families of the analysed pickle A: its verdict, or "crash" when parsing/analysis raises
 Family == {"data", "bigdata", "unused", "dupproto", "sink", "getpid", "eval", "float0", "truncated", "underflow", "nomemo", "persid", "pkgsub",
-           "loadfails"}     \* analysed and rated like "sink", but the real unpickler raises (a global that cannot be resolved)
-VerdictOf(f) == CASE f \in {"data", "bigdata"} -> 0 [] f = "unused" -> 2 [] f = "dupproto" -> 3 [] f \in {"sink", "pkgsub", "loadfails"} -> 3 [] f = "getpid" -> 4 [] f = "eval" -> 5 [] OTHER -> 9
+           "loadfails",
+           "py2str"}        \* LIKELY_SAFE data whose value depends on the unpickling options the caller passes (8-bit strings)     \* analysed and rated like "sink", but the real unpickler raises (a global that cannot be resolved)
+VerdictOf(f) == CASE f \in {"data", "bigdata", "py2str"} -> 0 [] f = "unused" -> 2 [] f = "dupproto" -> 3 [] f \in {"sink", "pkgsub", "loadfails"} -> 3 [] f = "getpid" -> 4 [] f = "eval" -> 5 [] OTHER -> 9
 Crashes(f) == VerdictOf(f) = 9
 
 VARIABLES arm, kind, t, fam,     \* configuration
